@@ -32,9 +32,10 @@ VARIABLES pc,      \* program counter: which call comes next
           t,       \* t_cur handed to operators
           lrep,    \* lbook.rep  (starts at 0 here; the real start value is an offset)
           al,      \* aliasing/dirtiness flags per slot
-          hist     \* call history (sequence of records) if RecordHist
+          hist,    \* call history (sequence of records) if RecordHist
+          tb       \* t_cur at which the running advance() call began (1 inside evolve(); the current time for a direct call)
 
-vars == <<pc, nrep, ngen, loginit, rep, gen, t, lrep, al, hist>>
+vars == <<pc, nrep, ngen, loginit, rep, gen, t, lrep, al, hist, tb>>
 
 Outcomes == {"keep", "mutC", "mutM", "freshDeep", "freshShallow"}
 Flag == [cs : BOOLEAN, ms : BOOLEAN, cd : BOOLEAN, sd : BOOLEAN]
@@ -53,14 +54,14 @@ Init == /\ pc = "idle"
         /\ nrep \in 1..MaxRep /\ ngen \in 0..MaxGen /\ loginit \in BOOLEAN
         /\ rep = 0 /\ gen = 0 /\ t = 0 /\ lrep = 0
         /\ al = [s \in Slots |-> [cs |-> FALSE, ms |-> FALSE, cd |-> FALSE, sd |-> FALSE]]
-        /\ hist = <<>>
+        /\ hist = <<>> /\ tb = 0
 
 \* ---- evolve(): per replicate  lbook.rep += 1 ; reset() ; evaluate ; [log_initialize] ; t += 1 ; advance
 BeginRep == /\ pc = "idle" /\ rep < nrep
             /\ lrep' = lrep + 1 /\ rep' = rep + 1
             /\ pc' = "reset"
             /\ hist' = Rec("begin_rep", NoOc)
-            /\ UNCHANGED <<nrep, ngen, loginit, gen, t, al>>
+            /\ UNCHANGED <<nrep, ngen, loginit, gen, t, al, tb>>
 
 \* @type: ({cs: Bool, ms: Bool, cd: Bool, sd: Bool}) => {cs: Bool, ms: Bool, cd: Bool, sd: Bool};
 ResetFlags(f) == CASE ResetMode = "deep"    -> [f EXCEPT !.cs = FALSE, !.ms = FALSE, !.cd = f.sd]
@@ -71,7 +72,7 @@ Reset == /\ pc = "reset"
          /\ t' = 0 /\ gen' = 0
          /\ pc' = "evalinit"
          /\ hist' = Rec("reset", NoOc)
-         /\ UNCHANGED <<nrep, ngen, loginit, rep, lrep>>
+         /\ UNCHANGED <<nrep, ngen, loginit, rep, lrep, tb>>
 
 \* effect of one operator outcome on one slot (type annotations are read by Apalache only)
 \* @type: ({cs: Bool, ms: Bool, cd: Bool, sd: Bool}, Str) => Set({cs: Bool, ms: Bool, cd: Bool, sd: Bool});
@@ -101,13 +102,13 @@ OpCall(c) == /\ pc = c /\ IsOp(c)
                      /\ \A s \in Slots : OpEffect(al[s], al'[s])
                      /\ hist' = hist
              /\ pc' = NextPc(c)
-             /\ UNCHANGED <<nrep, ngen, loginit, rep, gen, t, lrep>>
+             /\ UNCHANGED <<nrep, ngen, loginit, rep, gen, t, lrep, tb>>
 
 \* a logbook call: observes, changes nothing
 LogCall(c) == /\ pc = c /\ IsLog(c)
               /\ pc' = NextPc(c)
               /\ hist' = Rec(c, NoOc)
-              /\ UNCHANGED <<nrep, ngen, loginit, rep, gen, t, lrep, al>>
+              /\ UNCHANGED <<nrep, ngen, loginit, rep, gen, t, lrep, al, tb>>
 
 \* t_cur += 1 after the initial evaluation, then advance(ngen)
 Tick0 == /\ pc = "tick0"
@@ -115,41 +116,60 @@ Tick0 == /\ pc = "tick0"
          /\ pc' = IF ngen > 0 THEN "pselect" ELSE "idle"
          /\ hist' = Rec("tick0", NoOc)
          /\ UNCHANGED <<nrep, ngen, loginit, rep, gen, lrep, al>>
+         /\ tb' = t + 1
 
 Tick == /\ pc = "tick"
         /\ t' = t + 1 /\ gen' = gen + 1
         /\ pc' = IF gen + 1 < ngen THEN "pselect" ELSE "idle"
         /\ hist' = Rec("tick", NoOc)
-        /\ UNCHANGED <<nrep, ngen, loginit, rep, lrep, al>>
+        /\ UNCHANGED <<nrep, ngen, loginit, rep, lrep, al, tb>>
+
+\* ---- the other public entry points, called directly on a programme whose evolve() has returned
+TMax == 2 * MaxGen + 1
+\* advance(k): k more cycles from the CURRENT time (no reset, no initial evaluation, the replicate counters untouched)
+MoreAdvanceBody(k) == /\ pc = "finished" /\ ~RecordHist
+                      /\ ngen' = k /\ gen' = 0 /\ tb' = t
+                      /\ pc' = "pselect"
+                      /\ UNCHANGED <<nrep, loginit, rep, t, lrep, al, hist>>
+MoreAdvance == \E k \in 1..MaxGen : t + k <= TMax /\ MoreAdvanceBody(k)
+\* reset(): the working state is replaced by copies of the stored start, the time goes back to 0
+ResetCall == /\ pc = "finished" /\ ~RecordHist /\ t > 0
+             /\ al' = [s \in Slots |-> ResetFlags(al[s])]
+             /\ t' = 0 /\ gen' = 0 /\ ngen' = 0 /\ tb' = 0
+             /\ UNCHANGED <<pc, nrep, loginit, rep, lrep, hist>>
 
 Finished == /\ pc = "idle" /\ rep = nrep
             /\ pc' = "finished"
             /\ hist' = Rec("final", NoOc)
-            /\ UNCHANGED <<nrep, ngen, loginit, rep, gen, t, lrep, al>>
+            /\ UNCHANGED <<nrep, ngen, loginit, rep, gen, t, lrep, al, tb>>
 
-Next == \/ BeginRep \/ Reset \/ Tick0 \/ Tick \/ Finished
+Next == \/ BeginRep \/ Reset \/ Tick0 \/ Tick \/ Finished \/ MoreAdvance \/ ResetCall
         \/ \E c \in {"evalinit", "pselect", "mate", "evaluate", "sselect"} : OpCall(c)
         \/ \E c \in {"log_initialize", "log_pselect", "log_mate", "log_evaluate", "log_sselect"} : LogCall(c)
 
 Spec == Init /\ [][Next]_vars /\ WF_vars(Next)
 
 ------------------------------------------------------------------------------
-TypeOK == /\ rep \in 0..MaxRep /\ gen \in 0..MaxGen /\ t \in 0..(MaxGen + 1) /\ lrep \in 0..MaxRep
+TypeOK == /\ rep \in 0..MaxRep /\ gen \in 0..MaxGen /\ t \in 0..TMax /\ lrep \in 0..MaxRep /\ tb \in 0..TMax
           /\ al \in [Slots -> Flag]
 
 \* the stored initial state is never modified
 StartNeverModified == \A s \in Slots : ~al[s].sd
 \* every replicate starts from content equal to the initial one, in fresh objects
 ReplicateStartsEqual == pc = "evalinit" => \A s \in Slots : ~al[s].cd /\ ~al[s].cs /\ ~al[s].ms
-\* time index: 0 at the initial evaluation, 1 + completed generations inside advance
+\* time index: 0 at the initial evaluation; inside advance the time at which the call began + completed generations
 TimeIndex == /\ pc \in {"evalinit", "log_initialize", "tick0"} => t = 0
              /\ pc \in {"pselect", "log_pselect", "mate", "log_mate", "evaluate", "log_evaluate",
-                        "sselect", "log_sselect", "tick"} => t = gen + 1
+                        "sselect", "log_sselect", "tick"} => t = tb + gen
 \* logbook replicate counter = replicates started
 LogbookRep == lrep = rep
 \* the run ends, having done all replicates and generations
 Done == <>(pc = "finished")
 DoneAll == pc = "finished" => rep = nrep /\ (gen = ngen \/ ngen = 0)
 \* t never decreases inside a replicate, and only Reset sets it back
-TimeMonotone == [][t' >= t \/ pc = "reset"]_vars
+TimeMonotone == [][t' >= t \/ pc = "reset" \/ (pc = "finished" /\ t' = 0)]_vars
+\* a cycle advances the time by exactly one, a direct advance() call starts at the time the programme stands at
+CycleTicksByOne == [][(pc = "tick" => t' = t + 1) /\ (pc = "finished" /\ pc' = "pselect" => t' = t)]_vars
+\* inside evolve() every advance starts at time 1
+EvolveStartsAtOne == [][pc = "tick0" => tb' = 1]_vars
 ==============================================================================
